@@ -48,7 +48,7 @@ class OnDiskBytesDict(dict):
         (self._tmp_dir / filename).unlink()
 
     def __setitem__(self, key, value):
-        assert isinstance(value, bytes), "Can only set bytes"
+        assert isinstance(value, (bytes, bytearray)), "Can only set bytes"
 
         if key in self._key_to_filename:
             self._delete(key)
